@@ -52,6 +52,8 @@ fn value_sem(v: &Value) -> Option<SemValue> {
         | Value::SemValue(s) => Some(s.clone()),
         | Value::Lit(l) => Some(SemValue::Literal(l.clone())),
         | Value::Triv(_) => Some(SemValue::Triv(Triv)),
+        // a syntactic thunk built by the host (e.g. the tail of the argument fold): opaque
+        | Value::Thunk(Thunk(body)) => Some(SemValue::Thunk(EnvThunk { body: body.clone(), env: Env::new() })),
         | _ => None,
     }
 }
@@ -111,4 +113,37 @@ pub fn call_prim(role: BuiltinValueRole, args: Vec<SemValue>, extra: usize, stdi
         (shape, left)
     };
     PrimOutcome { shape, output, stack_left }
+}
+
+/// A live runtime on which several host operations can be called in sequence (handles persist).
+pub struct PrimSession<'rt> {
+    pub rt: Runtime<'rt>,
+}
+
+impl<'rt> PrimSession<'rt> {
+    pub fn new(input: &'rt mut dyn std::io::BufRead, output: &'rt mut dyn std::io::Write, argv: &'rt [String]) -> Self {
+        let program = DynamicsProgram { defs: Default::default(), root: Rc::new(Computation::Ret(Return(Rc::new(Value::Triv(Triv))))) };
+        PrimSession { rt: Runtime::new(input, output, argv, program) }
+    }
+    /// call `role` with `args` plus one sentinel below them; returns (shape, sentinel left untouched?)
+    pub fn call(&mut self, role: BuiltinValueRole, args: Vec<SemValue>) -> (Result<Shape, PanicInfo>, bool) {
+        let before = self.rt.stack.len();
+        self.rt.stack.push_back(SemCompu::App(lit_i64(-7777)));
+        for a in args.into_iter().rev() {
+            self.rt.stack.push_back(SemCompu::App(a));
+        }
+        let c = Computation::Prim(Prim { arity: role.arity() as u64, role });
+        let rt = &mut self.rt;
+        let r = guarded(|| c.step(rt));
+        let exact = self.rt.stack.len() == before + 1;
+        while self.rt.stack.len() > before {
+            self.rt.stack.pop_back();
+        }
+        let shape = r.map(|s| match s {
+            | Step::Step(c) => decode(&c),
+            | Step::Done(ProgKont::ExitCode(c)) => Shape::Exit(c),
+            | Step::Done(other) => Shape::Other(format!("{:?}", other)),
+        });
+        (shape, exact)
+    }
 }
